@@ -879,20 +879,21 @@ class SyncObj(object):
         # journal was read); doing them again here would undo a later change already in the log.
         if commandType != _COMMAND_TYPE.REGULAR:
             return
-        command = pickle.loads(command[1:])
-        args = []
-        kwargs = {
-            '_doApply': True,
-        }
-        if not isinstance(command, tuple):
-            funcID = command
-        elif len(command) == 2:
-            funcID, args = command
-        else:
-            funcID, args, newKwArgs = command
-            kwargs.update(newKwArgs)
-
         try:
+            # (decoding the arguments is part of executing the command: an argument that pickles
+            # on the submitter and fails to load raises here, on every replica alike)
+            command = pickle.loads(command[1:])
+            args = []
+            kwargs = {
+                '_doApply': True,
+            }
+            if not isinstance(command, tuple):
+                funcID = command
+            elif len(command) == 2:
+                funcID, args = command
+            else:
+                funcID, args, newKwArgs = command
+                kwargs.update(newKwArgs)
             return self._idToMethod[funcID](*args, **kwargs)
         except Exception as e:
             # The command is committed: every replica executes it at this position and
